@@ -41,6 +41,50 @@ const Pause = "pause"
 // have left the breaker open or a backend ejected); clauses (i) and (iii) apply.
 const GoodBurst = "good-burst"
 
+// Outage is the fault "refused connection" in its literal form, and with a LENGTH. The letter "refuse" of
+// the alphabet is played as accept-then-reset (the backend's port stays open, the proxy's dial succeeds and
+// the connection dies); during an Outage step the backend is really DOWN: nothing listens on its port, the
+// kernel refuses the proxy's connect() (ECONNREFUSED), established connections are reset - a backend that
+// has crashed, is being redeployed or whose host reboots (lab.NewRestartableBackend keeps the port reserved
+// meanwhile). While it is down Step.Requests requests are sent (one after the other, or in synchronised
+// volleys of Step.Concurrent): the outage lasts 1 ... several hundred requests, each of which the proxy can
+// only answer with an error where it routes it to a backend that is down, and the failed attempts ADD UP
+// over the life of the helios process (the sequence is played twice, an outage step may be repeated). Then
+// the backend comes back on the same address and answers everything well at once. Step.Down says who is
+// down: "faulty" (one backend, the other one serves), "both" (the whole site: every request fails),
+// "rolling" (a rolling restart: first FAULTY for Step.Requests requests, then, FAULTY being back, GOOD).
+// Oracle: clause (i) for every request of the outage; and the step carries its own "afterwards" (run.go,
+// runOutage): once the configuration's documented come-back time has passed with every backend up, requests
+// from fresh client addresses succeed normally.
+const Outage = "outage"
+
+// Downs is the "who is down" dimension of an Outage step.
+var Downs = []string{"faulty", "both", "rolling"}
+
+// UploadSizes is the size dimension of the request body of the kinds that carry one (Step.Upload indexes it;
+// 0 = the 2000 bytes every body had before the dimension existed): far below a socket buffer, a few segments
+// worth, most of what the kernel buffers of one loopback connection take when the peer does not read
+// (measured here: 4 MiB = net.ipv4.tcp_wmem max), and beyond it - the proxy cannot get rid of such a body
+// unless the backend reads it.
+var UploadSizes = []int{2000, 200 << 10, 3 << 20, 8 << 20}
+
+func uploadSize(i int) int {
+	if i < 0 || i >= len(UploadSizes) {
+		return UploadSizes[0]
+	}
+	return UploadSizes[i]
+}
+
+// bodyKind: the request kinds that carry a request body.
+func bodyKind(k string) bool {
+	k = kindOf(k)
+	return k == "post-cl" || k == "post-chunked" || k == "expect-continue"
+}
+
+// beforeHead: the backend faults that strike before any response head - for them it is a dimension of its
+// own whether the backend has taken the request body off the wire before it misbehaves (Step.Unread).
+func beforeHead(f string) bool { return probeFault(f) }
+
 // isFault: the step carries a fault of the alphabet (neither a quiet period nor a well-behaved burst).
 func (s Step) isFault() bool { return s.Fault != Pause && s.Fault != GoodBurst }
 
@@ -277,6 +321,19 @@ type Step struct {
 	// much it has read when it disconnects (see downloads in afterwards.go). 0 = the burst starts with the only
 	// variant that existed before the dimension.
 	Download int `json:"download_variant_rotation,omitempty"`
+	// Upload: size class of the request body of every request of the step whose kind carries one (index into
+	// UploadSizes; 0 = 2000 bytes, as before the dimension existed).
+	Upload int `json:"upload_size_class,omitempty"`
+	// Unread (refuse, hang-headers, garbage, 5xx): the FAULTY backend does NOT read the request body before it
+	// misbehaves. hang-headers: from the request head on it takes nothing more off the wire and writes nothing
+	// (a frozen process: what the proxy streams to it piles up in the socket buffers, then the proxy's write
+	// blocks); refuse / garbage / 5xx: it resets / answers from the request head alone and closes. false: it
+	// reads the whole body first (as before the dimension existed).
+	Unread bool `json:"backend_does_not_read_the_upload,omitempty"`
+	// Outage steps only: Requests = number of requests sent while the backend is down (per phase), Down = who
+	// is down (see Downs; "" = faulty); Concurrent = width of the synchronised volleys (0 = one by one).
+	Requests int    `json:"outage_requests,omitempty"`
+	Down     string `json:"down,omitempty"`
 }
 
 // requests is the number of requests of the step that carry the fault (Good and a GoodBurst's requests
@@ -285,6 +342,8 @@ func (s Step) requests() int {
 	switch {
 	case s.Fault == Pause || s.Fault == GoodBurst:
 		return 0
+	case s.Fault == Outage:
+		return s.Requests
 	case s.Concurrent > 0:
 		return s.Concurrent
 	case s.N > 0:
@@ -300,7 +359,24 @@ func (s Step) String() string {
 	if s.Fault == GoodBurst {
 		return fmt.Sprintf("GOOD-BURST of %s x%d concurrent (both backends well-behaved)", kindOf(s.Kind), s.Concurrent)
 	}
+	if s.Fault == Outage {
+		how := "one by one"
+		if s.Concurrent > 1 {
+			how = fmt.Sprintf("in synchronised volleys of %d", s.Concurrent)
+		}
+		who := map[string]string{"both": "BOTH backends are down", "rolling": "rolling restart: FAULTY is down, comes back, then GOOD is down"}[s.Down]
+		if who == "" {
+			who = "FAULTY is down"
+		}
+		return fmt.Sprintf("OUTAGE (%s: nothing listens on the port, connect() is refused) for %d %s requests %s, then back on the same address", who, s.Requests, kindOf(s.Kind), how)
+	}
 	d := fmt.Sprintf("%s on %s x%d", s.Fault, kindOf(s.Kind), s.requests())
+	if s.Upload > 0 && bodyKind(s.Kind) {
+		d += fmt.Sprintf(" (request bodies of %d bytes)", uploadSize(s.Upload))
+	}
+	if s.Unread && beforeHead(s.Fault) {
+		d += " (the backend does not read the request body)"
+	}
 	if s.Concurrent > 0 {
 		d += " concurrent"
 	} else {
@@ -397,6 +473,16 @@ func (c Case) Nontrivial() bool {
 	return len(kinds) >= 2 || (abort && c.Cfg.Breaker > 0) || quiet
 }
 
+// hasOutage: the case needs backends that can really go down (lab.NewRestartableBackend).
+func (c Case) hasOutage() bool {
+	for _, s := range c.Steps {
+		if s.Fault == Outage {
+			return true
+		}
+	}
+	return false
+}
+
 // faults is the number of fault steps (pauses and well-behaved bursts not counted).
 func (c Case) faults() int {
 	n := 0
@@ -488,6 +574,38 @@ func genStep(rt *rapid.T, active bool) Step {
 	if s.Fault == "client-abort-download" {
 		s.Download = rapid.IntRange(0, len(downloads)-1).Draw(rt, "download_variant")
 	}
+	if bodyKind(s.Kind) && s.Fault != "client-abort-upload" {
+		// half of the body-carrying steps keep the 2000-byte body, the others draw a size class
+		s.Upload = rapid.SampledFrom([]int{0, 0, 0, 1, 2, 3}).Draw(rt, "upload_size_class")
+		if beforeHead(s.Fault) {
+			s.Unread = rapid.Bool().Draw(rt, "backend_does_not_read_the_upload")
+		}
+		if s.Upload >= 2 { // MiB-sized bodies: narrow bursts (memory of the raw backends, not a limit of the property)
+			s.Concurrent, s.Good = min(s.Concurrent, 4), min(s.Good, 4)
+		}
+	}
+	return s
+}
+
+// genOutage draws an Outage step: 1-250 requests while FAULTY / both backends / first FAULTY then GOOD are
+// really down, one by one or in synchronised volleys of 4 or 16.
+func genOutage(rt *rapid.T) Step {
+	s := Step{Fault: Outage,
+		Requests:   rapid.SampledFrom([]int{1, 2, 5, 12, 30, 60, 120, 250}).Draw(rt, "outage_requests"),
+		Down:       rapid.SampledFrom(Downs).Draw(rt, "down"),
+		Concurrent: rapid.SampledFrom([]int{0, 0, 4, 16}).Draw(rt, "volley_width"),
+		Kind:       rapid.SampledFrom([]string{"get", "get", "post-cl", "post-chunked", "head", "expect-continue"}).Draw(rt, "outage_kind")}
+	return s.affordable()
+}
+
+// affordable: a request with Expect: 100-continue whose backend refuses the connection is answered 502 only
+// when the server's read timeout (1 s) expires (net/http drains the unsent request body first), so an
+// outage of hundreds of them would last minutes: longer outages of that kind are played with plain chunked
+// POSTs instead (harness budget, not a limit of the property).
+func (s Step) affordable() Step {
+	if s.Fault == Outage && kindOf(s.Kind) == "expect-continue" && s.Requests > 12 {
+		s.Kind = "post-chunked"
+	}
 	return s
 }
 
@@ -506,7 +624,9 @@ func genPause(rt *rapid.T) Step {
 // well-behaved concurrent burst of 8-32 requests (and, in half of those, the same fault step and another
 // such burst once or twice more: the moment right after a fault is visited a few times), and in 2 of 5
 // draws a quiet period (neither counts towards the length). In half of the draws the recovery phase is
-// played with the roles swapped first (Case.Swap).
+// played with the roles swapped first (Case.Swap). One step in 6 is an Outage step (genOutage) instead of a
+// letter of the alphabet; steps of a kind that carries a request body draw the size class of that body and,
+// for the faults that strike before the response head, whether the backend reads it (genStep).
 func genCase(k int) *rapid.Generator[Case] {
 	return rapid.Custom(func(rt *rapid.T) Case {
 		c := Case{Cfg: genCfg(rt)}
@@ -518,7 +638,12 @@ func genCase(k int) *rapid.Generator[Case] {
 		}
 		n := rapid.SampledFrom(lens).Draw(rt, "length")
 		for i := 0; i < n; i++ {
-			st := genStep(rt, c.Cfg.Active)
+			var st Step
+			if rapid.IntRange(0, 5).Draw(rt, "outage_instead") == 0 {
+				st = genOutage(rt) // 1 step in 6: a backend is really down for a while
+			} else {
+				st = genStep(rt, c.Cfg.Active)
+			}
 			c.Steps = append(c.Steps, st)
 			if rapid.IntRange(0, 2).Draw(rt, "good_burst_after") == 0 {
 				c.Steps = append(c.Steps, genGoodBurst(rt))
